@@ -1586,6 +1586,8 @@ pub fn rewrite_source_pool(rng: &mut Rng) -> Vec<GDoc> {
     out.extend(operation_mix_cases(rng, 300));
     out.extend(subscription_key_cases(rng, 200));
     out.extend(merge_fragment_dag_cases(rng, 300));
+    out.extend(valid_variable_dag_cases(rng, 400));
+    out.extend(merge_untyped_wrapper_cases());
     out
 }
 
@@ -1841,6 +1843,108 @@ pub fn fragment_condition_cases(si: &SchemaInfo) -> Vec<String> {
         out.push(format!("{{ x: __typename ... on {} {{ ... {{ y: __typename }} }} }}", t));
         out.push(format!("{{ __typename ...F }} fragment F on {} {{ __typename }}", t));
         out.push(format!("{{ ... {{ ... on {} @skip(if: true) {{ __typename }} }} }}", t));
+    }
+    out
+}
+
+/// C05 / C01: same-keyed fields under provably disjoint parents (A / B) that differ in field name or
+/// arguments (allowed), one or both standing inside an inline fragment WITHOUT type condition
+/// (bare or with a directive), directly or through a named fragment; and the same under one parent
+/// (A / A: a conflict).  An untyped inline fragment changes nothing about the enclosing type.
+pub fn merge_untyped_wrapper_cases() -> Vec<GDoc> {
+    let leaf = |alias: &str, name: &str, args: Vec<(String, GValue)>| GSel::Field { alias: Some(alias.into()), name: name.into(), args, dirs: vec![], sels: vec![] };
+    let untyped = |sels: Vec<GSel>, with_dir: bool| GSel::Inline { tc: None, dirs: if with_dir { vec![GDir { name: "skip".into(), args: vec![("if".to_string(), GValue::Bool(false))] }] } else { vec![] }, sels };
+    let pairs: Vec<(GSel, GSel)> = vec![
+        (leaf("n", "name", vec![]), leaf("n", "nick", vec![])),
+        (leaf("n", "leafArg", vec![("x".to_string(), GValue::Int(1)), ("y".to_string(), GValue::Int(2))]), leaf("n", "leafArg", vec![("q".to_string(), GValue::Int(1))])),
+        (leaf("n", "name", vec![]), leaf("n", "name", vec![])),
+        (leaf("n", "name", vec![]), leaf("n", "id", vec![])),
+    ];
+    let mut out = vec![];
+    for (x, y) in &pairs {
+        for wrap in 0..6usize {
+            for parents in 0..2usize {
+                let mut defs: Vec<GDef> = vec![];
+                let c2 = if parents == 0 { "B" } else { "A" };
+                // the B side cannot select A-only fields: on B use name / nick / leafArg(q:) / id, all defined on B
+                let (first, second): (Vec<GSel>, Vec<GSel>) = match wrap {
+                    0 => (vec![untyped(vec![x.clone()], false)], vec![y.clone()]),
+                    1 => (vec![x.clone()], vec![untyped(vec![y.clone()], true)]),
+                    2 => (vec![untyped(vec![x.clone()], true)], vec![untyped(vec![untyped(vec![y.clone()], false)], false)]),
+                    3 => {
+                        defs.push(GDef::Frag { name: "W".into(), tc: "A".into(), dirs: vec![], sels: vec![untyped(vec![x.clone()], false)] });
+                        (vec![GSel::Spread { name: "W".into(), dirs: vec![] }], vec![y.clone()])
+                    }
+                    4 => {
+                        defs.push(GDef::Frag { name: "W".into(), tc: c2.into(), dirs: vec![], sels: vec![untyped(vec![y.clone()], true)] });
+                        (vec![x.clone()], vec![untyped(vec![GSel::Spread { name: "W".into(), dirs: vec![] }], false)])
+                    }
+                    _ => (vec![x.clone()], vec![y.clone()]),
+                };
+                // with parents A / A the second field must exist on A as written; leafArg(q:) does not: skip
+                if parents == 1 && matches!(y, GSel::Field { args, .. } if args.iter().any(|(k, _)| k == "q")) {
+                    continue;
+                }
+                let root = GSel::Field { alias: None, name: "node".into(), args: vec![], dirs: vec![], sels: vec![
+                    GSel::Inline { tc: Some("A".into()), dirs: vec![], sels: first },
+                    GSel::Inline { tc: Some(c2.into()), dirs: vec![], sels: second },
+                ] };
+                defs.insert(0, GDef::Op { kind: OpKind::SelSet, name: None, vars: vec![], dirs: vec![], sels: vec![root] });
+                out.push(GDoc(defs));
+            }
+        }
+    }
+    out
+}
+
+/// C11 / C02 on the `lonely` schema: a subscription whose extra root field sits two fragment levels
+/// down (outer condition: an interface of the root, the union containing it, or the root; inner
+/// condition: the root or another interface), inline and through named fragments, every field
+/// defined where it is selected — only SingleFieldSubscriptions can object (or nothing, when both
+/// levels select the same key)
+pub fn subscription_nested_clean_cases() -> Vec<GDoc> {
+    let f = |n: &str| GSel::Field { alias: None, name: n.into(), args: vec![], dirs: vec![], sels: vec![] };
+    let own = |tc: &str| -> Option<&'static str> { match tc { "Ev" => None, "Node" | "Pet" => Some("id"), _ => Some("name") } };
+    let mut out = vec![];
+    for outer in ["Named", "Node", "Pet", "Ev", "Subscription"] {
+        for inner in ["Subscription", "Named", "Node"] {
+            for same_key in [false, true] {
+                for form in 0..3usize {
+                    let inner_field = if same_key { own(outer).unwrap_or("id") } else if inner == "Subscription" { "other" } else if own(outer) == Some("id") { if inner == "Node" { continue } else { "name" } } else { "id" };
+                    // the inner field must be defined on the inner type
+                    let defined = match inner { "Subscription" => ["id", "name", "other"].contains(&inner_field), "Named" => ["id", "name"].contains(&inner_field), _ => inner_field == "id" };
+                    if !defined {
+                        continue;
+                    }
+                    let mut inner_sels = vec![f(inner_field)];
+                    if outer == "Ev" && !same_key {
+                        inner_sels.insert(0, f("id"));
+                    }
+                    let mut outer_sels: Vec<GSel> = vec![];
+                    if let Some(o) = own(outer) {
+                        outer_sels.push(f(o));
+                    }
+                    let mut defs = vec![];
+                    match form {
+                        0 => {
+                            outer_sels.push(GSel::Inline { tc: Some(inner.into()), dirs: vec![], sels: inner_sels });
+                            defs.push(GDef::Op { kind: OpKind::Subscription, name: Some("S".into()), vars: vec![], dirs: vec![], sels: vec![GSel::Inline { tc: Some(outer.into()), dirs: vec![], sels: outer_sels }] });
+                        }
+                        1 => {
+                            outer_sels.push(GSel::Inline { tc: Some(inner.into()), dirs: vec![], sels: inner_sels });
+                            defs.push(GDef::Op { kind: OpKind::Subscription, name: None, vars: vec![], dirs: vec![], sels: vec![GSel::Spread { name: "Outer".into(), dirs: vec![] }] });
+                            defs.push(GDef::Frag { name: "Outer".into(), tc: outer.into(), dirs: vec![], sels: outer_sels });
+                        }
+                        _ => {
+                            outer_sels.push(GSel::Spread { name: "Inner".into(), dirs: vec![] });
+                            defs.push(GDef::Op { kind: OpKind::Subscription, name: Some("S".into()), vars: vec![], dirs: vec![], sels: vec![GSel::Inline { tc: Some(outer.into()), dirs: vec![], sels: outer_sels }] });
+                            defs.push(GDef::Frag { name: "Inner".into(), tc: inner.into(), dirs: vec![], sels: inner_sels });
+                        }
+                    }
+                    out.push(GDoc(defs));
+                }
+            }
+        }
     }
     out
 }
